@@ -17,7 +17,7 @@ def gen_scenario(rnd, special=None):
             d = "t%d" % k; k += 1
             steps.append(["bin", d, rnd.choice(["add", "sub", "mul", "mul"]), rnd.choice(names), rnd.choice(names + [3, -1, 0])]); names.append(d)
         elif t < 0.85:
-            fn = special if (special and rnd.random() < 0.5) else rnd.choice(["sq", "madd", "pair", "nest"])
+            fn = special if (special and special != "midprove" and rnd.random() < 0.5) else rnd.choice(["sq", "madd", "pair", "nest"])
             ar = FN_ARITY.get(fn, 1)
             d = "r%d" % k; k += 1
             steps.append(["call", fn, [rnd.choice(names) for _ in range(ar)], d])
@@ -25,7 +25,20 @@ def gen_scenario(rnd, special=None):
         else:
             steps.append(["val", rnd.choice(names)])
     steps.append(["val", names[-1]])
+    if special == "midprove":
+        # an early prove() somewhere after the first statement; the same functions are called before and after it
+        pos = rnd.randrange(4, len(steps))
+        steps.insert(pos, ["prove"])
+        d = "q%d" % k
+        steps += [["call", "sq", [names[0]], d], ["call", "madd", [names[0], d], d + "x"], ["val", d + "x"]]
+        steps.insert(3, ["call", "sq", ["c"], "q_pre"])
     return dict(steps=steps, special=special)
+
+
+def midprove_scenarios():
+    return [dict(steps=[["priv", "a", 3], ["call", "sq", ["a"], "r0"], ["prove"], ["call", "sq", ["r0"], "r1"], ["val", "r1"]], special="midprove"),
+            dict(steps=[["priv", "a", 3], ["pub", "b", 2], ["call", "madd", ["a", "b"], "r0"], ["prove"], ["bin", "t", "mul", "r0", "a"], ["val", "t"]], special="midprove"),
+            dict(steps=[["priv", "a", -2], ["call", "nest", ["a", "a"], "r0"], ["val", "r0"], ["prove"], ["call", "nest", ["r0", "a"], "r1"], ["prove"], ["call", "sq", ["r1"], "r2"], ["val", "r2"]], special="midprove")]
 
 
 def run_scenario(sc):
@@ -153,8 +166,9 @@ def run(tier, seed):
     viol = common.proof_violations(PID, tr_ok, tr_msg, props)
     n = 40 if tier == "quick" else 400
     scs = [json.load(open(os.path.join(common.VERIF, "corpus", PID, f))) for f in sorted(os.listdir(os.path.join(common.VERIF, "corpus", PID))) if f.endswith(".json")]
+    scs += midprove_scenarios()
     for i in range(n):
-        scs.append(gen_scenario(rnd, special=("iszero" if i % 13 == 5 else "poly" if i % 13 == 9 else "perm" if i % 13 == 2 else "perm2" if i % 13 == 11 else "layout" if i % 13 == 7 else "closure" if i % 13 == 4 else None)))
+        scs.append(gen_scenario(rnd, special=("iszero" if i % 13 == 5 else "poly" if i % 13 == 9 else "perm" if i % 13 == 2 else "perm2" if i % 13 == 11 else "layout" if i % 13 == 7 else "closure" if i % 13 == 4 else "midprove" if i % 13 == 6 else None)))
     from concurrent.futures import ThreadPoolExecutor
     with ThreadPoolExecutor(common.NPROC) as ex:
         results = list(ex.map(run_scenario, scs))
